@@ -261,15 +261,19 @@ def kinderzuschl_kindereink_abzug_m(  # noqa: PLR0913
     -------
 
     """
+    # The income allowance is calculated from all earned income (including income from
+    # self-employment). It must not turn the child's income to be considered negative;
+    # otherwise, the amount per child would exceed the maximum.
+    eink_kind_m = max(
+        bruttolohn_m
+        + kind_unterh_erhalt_m
+        + unterhaltsvors_m
+        - arbeitsl_geld_2_eink_anr_frei_m,
+        0.0,
+    )
     out = kindergeld_anspruch * (
         kinderzuschl_params["maximum"]
-        - kinderzuschl_params["entzugsrate_kind"]
-        * (
-            bruttolohn_m
-            + kind_unterh_erhalt_m
-            + unterhaltsvors_m
-            - arbeitsl_geld_2_eink_anr_frei_m
-        )
+        - kinderzuschl_params["entzugsrate_kind"] * eink_kind_m
     )
 
     return max(out, 0.0)
